@@ -830,7 +830,10 @@ class Pile(Widget, WidgetContainerMixin, WidgetContainerListContentsMixin):
         _widths, heights, size_args = self.get_rows_sizes(size, focus)
 
         combinelist = []
-        for i, (height, w_size, (w, _)) in enumerate(zip(heights, size_args, self.contents)):
+        # an item that is sized by its content and currently has no rows shows up again when that
+        # content changes: the canvas keeps depending on it
+        hidden_pack = []
+        for i, (height, w_size, (w, (size_kind, _amount))) in enumerate(zip(heights, size_args, self.contents)):
             item_focus = self.focus == w
             canv = None
             if height > 0:
@@ -838,11 +841,21 @@ class Pile(Widget, WidgetContainerMixin, WidgetContainerListContentsMixin):
 
             if canv:
                 combinelist.append((canv, i, item_focus))
+            elif size_kind == WHSettings.PACK or len(size) < 2:
+                # (when the pile itself is a flow widget every item's height comes from the item)
+                hidden_pack.append(w)
 
         if not combinelist:
-            return SolidCanvas(" ", size[0], (size[1:] + (0,))[0])
+            blank = SolidCanvas(" ", size[0], (size[1:] + (0,))[0])
+            if not hidden_pack:
+                return blank
+            out = CompositeCanvas(blank)
+            out.set_depends(hidden_pack)
+            return out
 
         out = CanvasCombine(combinelist)
+        if hidden_pack:
+            out.set_depends([self.contents[i][0] for _canv, i, _focus in combinelist] + hidden_pack)
         if len(size) == 2 and size[1] != out.rows():
             # flow/fixed widgets rendered too large/small
             out = CompositeCanvas(out)
